@@ -42,7 +42,8 @@ REFINE_MAP = {'Msm': ['C01', 'C11'], 'Coring': ['C05'], 'Events': ['C06', 'C11']
               'Transfer': ['C11', ('C05', r'coring'), ('C06', r'waiting'), ('C13', r'compare')], 'ErgodicTransfer': ['C14'],
               'CoringTransfer': [('C05', r'dynamical_coring|^api_|guard_of_result|mapM_bind'), ('C06', r'^estimate_')],
               'CompareTransfer': [('C13', r'^api_|swap$'), ('C15', r'shift_data|rename_by|unique')],
-              'LumpedTransfer': [('C01', r'^plain'), ('C03', r'^lumped')], 'PeqTransfer': [('C04', r'^peq'), ('C20', r'^runningmean|^gaussian')]}
+              'LumpedTransfer': [('C01', r'^plain'), ('C03', r'^lumped')], 'PeqTransfer': [('C04', r'^peq'), ('C20', r'^runningmean|^gaussian')],
+              'RelabelTransfer': [('C17', r'relabel|Pipe_eq|firstKeys|bucket_map|groupFirst'), ('C02', r'roundtrip|index_trajs_ranks|states_ascending|^counters$')]}
 refine = os.path.join(HOME, 'lean', 'MsmVerif', 'Refine')
 for topic, pids in REFINE_MAP.items():
     f = os.path.join(refine, topic + '.lean')
